@@ -226,7 +226,7 @@ func impl(ops []string) []string {
 			now, ok3 := pi(f[4])
 			start, ok4 := pi(f[5])
 			dur, ok5 := pi(f[6])
-			if !ok0 || e2 != nil || !ok3 || !ok4 || !ok5 || x.w != nil {
+			if !ok0 || e2 != nil || !ok3 || !ok4 || !ok5 || x.w != nil || value > 4e18 {
 				continue
 			}
 			bal := map[string]currency.Coin{}
@@ -394,8 +394,8 @@ func gen(r *rand.Rand, thorough bool, i int) []string {
 	} else {
 		value = math.MaxUint64 - uint64(r.Intn(5))
 	}
-	if value > 4e18 && r.Intn(3) > 0 {
-		value = 4e18 // the engine rejects values above the supply
+	if value > 4e18 {
+		value = 4e18 // the engine rejects transaction values above the token supply (C01's business)
 	}
 	bal := fmt.Sprintf("%d", value)
 	switch r.Intn(15) {
@@ -583,7 +583,8 @@ func oracle(ops, outs []string) *corr.Violation {
 				if f[0] == "unlock" && c == prev.owner && class != "no-excess" {
 					return mk("owner-cannot-withdraw-excess", fmt.Sprintf("op %d %q by the owner fails: %s", i, op, class))
 				}
-				if f[0] == "trigger" && c == prev.owner && now >= prev.expire && len(prev.dests) > 0 && prev.balance > 0 {
+				// ("empty pool" is the legitimate answer once everything has been paid out)
+				if f[0] == "trigger" && c == prev.owner && now >= prev.expire && len(prev.dests) > 0 && class != "empty-pool" && class != "no-destinations" {
 					return mk("cannot-complete-at-expiry", fmt.Sprintf("op %d %q: the owner's trigger at/after expiry fails (%s): destinations cannot receive their amounts", i, op, class))
 				}
 			}
@@ -660,7 +661,7 @@ func main() {
 			if th {
 				return 12000
 			}
-			return 700
+			return 2500
 		},
 		Fixed: [][]string{
 			{c, "add 0 30000000000 30000000000 1700000000 0 1000 1:10000000000 2:20000000000", "dump", "trigger 0 1700000250", "dump", "unlock 1 1700000500", "unlock 0 1700000500",
